@@ -468,6 +468,44 @@ def local_propagation(ctx, model, facts):
                 pass
 
 
+def long_lived_connection(ctx):
+    """sequence numbers far into a connection's life: a request stays outstanding while the connection's counter stands at 2**16, 2**31,
+    2**32, 2**63, 2**64 (+- a few).  Every outstanding request must have a number of its own, and each reply must reach its own requester
+    (seed C08-r10m1: the number is truncated to 16 bits, so the 65536th request after an unanswered one takes over its callback)."""
+    import itertools
+    for start in (2 ** 16, 2 ** 31, 2 ** 32, 2 ** 63, 2 ** 64, 10 ** 30):
+        ch = _Chan()
+        conn = Connection(rpyc.VoidService(), ch, config={})
+        log = []
+        case = {"long_lived_connection": {"old_request_number": "first of the connection", "counter_then_at": start - 3, "later_requests": 6}}
+        ctx.case(("long-lived", start), nontrivial=True, sample=case)
+        ctx.count("phase:long-lived-connection")
+        try:
+            first = next(conn._seqcounter)       # where this connection's numbers start
+            conn._seqcounter = itertools.count(first)
+            conn._async_request(consts.HANDLE_PING, (b"old",), (lambda is_exc, obj: log.append(["old", obj])))
+            # ... `start` requests later (all answered meanwhile) ...
+            conn._seqcounter = itertools.count(first + start - 3)
+            for k in range(6):
+                conn._async_request(consts.HANDLE_PING, (b"x",), (lambda is_exc, obj, k=k: log.append([k, obj])))
+            wire = [brine.load(d)[1] for d in ch.sent if brine.load(d)[0] == consts.MSG_REQUEST]
+            registered = len(conn._request_callbacks)
+            for j, q in enumerate(wire):
+                conn._dispatch(brine.dump((consts.MSG_REPLY, q, (consts.LABEL_VALUE, "reply-%d" % j))))
+            want = [["old", "reply-0"]] + [[k, "reply-%d" % (k + 1)] for k in range(6)]
+            if len(set(wire)) != len(wire) or registered != 7 or log != want or conn._request_callbacks:
+                ctx.violation("outstanding-requests-share-a-number:long-lived-connection", case,
+                              observed={"numbers on the wire": [str(x) for x in wire], "callbacks registered": registered, "delivered": log[:8], "left": len(conn._request_callbacks)},
+                              expected={"distinct numbers": 7, "delivered": want},
+                              what="a request issued while an earlier one was still unanswered got the earlier one's sequence number (numbers repeat after a fixed "
+                                   "count): the later request takes over the callback, one reply goes to the wrong requester and the other is dropped")
+        except BaseException as ex:      # noqa
+            ctx.violation("long-lived-connection:%s" % type(ex).__name__, case, observed=repr(ex)[:200], expected="requests with large numbers are issued and answered",
+                          what="issuing or answering a request far into a connection's life raised")
+        finally:
+            conn._closed = True
+
+
 def undecodable_response(ctx):
     """a response the REQUESTER cannot decode: the handler raises a built-in exception class whose constructor needs arguments
     (ExceptionGroup: finding F10 of C09). Property: the response is delivered to its request, which gets an exception, and the
@@ -551,6 +589,7 @@ def run(ctx):
                 seen.add(cb)
     local_propagation(ctx, model, facts)
     undecodable_response(ctx)
+    long_lived_connection(ctx)
     lost_streams = 0
     for i in range(n):
         seed = r.randrange(10**9)
